@@ -160,6 +160,19 @@ CLAIMED['C03'] = dict(
   design_ref='DESIGN.md section 3 C03',
   note='Trusted: product memory maps tabulated in the rule (Topaz, Topaz-512, NTAG), control TLV semantics.',
   technique='per-store guard dominance on the CFG + constant range containment (ast)')
+CLAIMED['C12'] = dict(
+  category='other',
+  text='Decides the structural clauses of the ISO-DEP initiator: block budget (FSC-3) with a partitioning I-block loop and FSC table/clamps; '
+       'every block-number toggle modulo 2 and dominated by the comparison with the received block number; PCB constants and classification '
+       'masks; every RF exchange of the APDU path inside a try that maps Transmission/Timeout/Protocol errors to Type4TagCommandError with '
+       'the matching code, error recovery sends R(NAK)/R(ACK) and never the I-block again; exception-escape sets of IsoDepInitiator.exchange, '
+       'send_apdu and transceive; every cycle of the retry loops passes the retry counter test and the WTX loop must be bounded; response '
+       'bytes are indexed only behind a length test. At-most-once execution by the card and staleness need a card model and are not decided.',
+  design_ref='DESIGN.md section 3 C12',
+  note='Known findings (7 keys, 2 root causes): the S(WTX) loop exchanges outside the error mapping, unbounded and without length test; the '
+       'retransmit-after-R(ACK) path passes no retry counter. Assume/guarantee: clf.exchange in reader mode raises Timeout/Transmission/'
+       'ProtocolError or IOError (C13).',
+  technique='CFG dominance + handler-map agreement + exception-escape analysis + loop-cycle counter test (ast)')
 NA_REASON = {}
 def main():
     checks = []
